@@ -110,15 +110,17 @@ def gen_offers(ck, sc, tag):
     vlib.tlc_ok(res, sc["label"])
     ck.add_tlc(res, f"{sc['label']}: offer enumeration + sanity of the relation")
     # a simulated behaviour prints its offer once, but different behaviours may build the same one
-    seen, rows = set(), []
-    with open(out) as f:
+    import hashlib
+    seen, n = set(), 0
+    with open(out) as f, open(out + ".dedup", "w") as g:
         for line in f:
-            if line not in seen:
-                seen.add(line)
-                rows.append(line)
-    with open(out, "w") as f:
-        f.writelines(rows)
-    return out, len(rows), res
+            h = hashlib.blake2b(line.encode(), digest_size=12).digest()
+            if h not in seen:
+                seen.add(h)
+                g.write(line)
+                n += 1
+    os.replace(out + ".dedup", out)
+    return out, n, res
 
 
 def record(ck, offers, tag, jobs):
